@@ -1073,24 +1073,27 @@ Proof. intros H. unfold stmt_expr. simsB. Qed.
 Lemma assign_op_plain t op : assign_op t = Some op -> opener t = false /\ closer t = false.
 Proof. destruct t as [| | | | | |k|]; try discriminate. destruct k; try discriminate; split; reflexivity. Qed.
 
-Lemma stmt_assignmentB c c' : R 0 c c' -> prelB (@VR stmt 0) (stmt_assignment T c) (stmt_assignment T c').
-Proof.
-  intros H. unfold stmt_assignment. apply (bindB (@VR assignable 0)); [apply assignable_pB; exact H|xr_introB].
-  rewrite (R_token _ _ _ HR).
-  match goal with |- context [assign_op (token ?x)] => destruct (assign_op (token x)) eqn:Eo end; [|simsB].
-  destruct (assign_op_plain _ _ Eo) as [O C].
-  match goal with |- context [expression T (skip 1 ?x)] =>
-    assert (H1 : R 0 (skip 1 x) (skip 1 c0)) by (apply R_skip1; [exact HR|exact O|intros _; exact C]) end.
-  simsB.
-Qed.
-
 Lemma stmt_assign_or_exprB c c' : R 0 c c' -> prelB (@VR stmt 0) (stmt_assign_or_expr T c) (stmt_assign_or_expr T c').
 Proof.
-  intros H. unfold stmt_assign_or_expr. apply (ptryB (@VR assignable 0)); [apply assignable_pB; exact H| |].
+  intros H. unfold stmt_assign_or_expr. pose proof (taB _ _ _ H) as TA.
+  apply (ptryB (@VR assignable 0)); [apply assignable_pB; exact H| |].
   - xr_introB. rewrite (R_token _ _ _ HR).
-    match goal with |- context [assign_op ?t] => destruct (assign_op t) end;
-      [apply stmt_assignmentB|apply stmt_exprB]; exact H.
-  - intros. apply stmt_exprB. exact H.
+    match goal with |- context [assign_op (token ?x)] => destruct (assign_op (token x)) eqn:Eo end.
+    + destruct (assign_op_plain _ _ Eo) as [O C].
+      match goal with |- context [expression T (skip 1 ?x)] =>
+        assert (H1 : R 0 (skip 1 x) (skip 1 c0)) by (apply R_skip1; [exact HR|exact O|intros _; exact C]) end.
+      simsB.
+    + destruct (type_assignable c) as [[b0 cb]|ce es| |], (type_assignable c') as [[b0' cb']|ce' es'| |];
+        try contradiction; try (apply pb_ret; exact I).
+      * destruct TA as [_ TA]. cbn [snd] in TA. rewrite (R_is_k _ KLeftBrace _ _ TA).
+        destruct (is_k KLeftBrace cb); [apply stmt_exprB; exact H|unfold expression_after; simsB].
+      * unfold expression_after. simsB.
+  - intros cx es cx' es'. rewrite (R_token _ _ _ H).
+    destruct (token c); try (apply stmt_exprB; exact H).
+    destruct (type_assignable c) as [[b0 cb]|ce es0| |], (type_assignable c') as [[b0' cb']|ce' es0'| |];
+      try contradiction; try (apply pb_ret; exact I).
+    + destruct TA as [_ TA]. cbn [snd] in TA. rewrite (R_is_k _ KLeftBrace _ _ TA).
+      destruct (is_k KLeftBrace cb); [apply stmt_exprB; exact H|apply pb_reraise].
 Qed.
 
 Lemma stmt_fromB c c' : R 0 c c' -> token c = TK KFrom -> prelB (@VR stmt 0) (stmt_from c) (stmt_from c').
